@@ -310,6 +310,7 @@ Discarded(n) ==
                  ELSE IF Par(p) # 0 /\ K(Par(p)) \in {"fn", "defn"} THEN FALSE
                  ELSE Discarded(p)
             [] K(p) = "finally" -> TRUE
+            [] K(p) \in {"and", "or"} -> NCh(p) = 1 /\ Discarded(p)   \* (or x) is just x
             [] K(p) = "else" -> ~last \/ (IF K(Par(p)) = "try" THEN Discarded(Par(p)) ELSE TRUE)
             [] K(p) = "except" -> idx > Nodes[p].hv /\ (~last \/ Discarded(Par(p)))
             [] K(p) = "while" -> idx >= 2
@@ -331,8 +332,13 @@ StepVar(n) ==
        \/ (Discarded(n) /\ nd' = Done(n, None) /\ UnchangedButNd)
 
 \* (e k) / (e k arg): the only action that appends to the log
-EffectAllowed(k) ==
-  P.mode = "explore" \/ (Len(log) < Len(P.obs.log) /\ P.obs.log[Len(log) + 1] = k)
+\* a log entry is <<site, value returned>> (None when the call raises)
+RECURSIVE Proj(_)
+Proj(v) == CASE v[1] = "fn" -> <<"fn", 0, <<>>>>
+             [] v[1] \in {"list", "tuple"} -> <<v[1], 0, [i \in 1..Len(v[3]) |-> Proj(v[3][i])]>>
+             [] OTHER -> v
+EffectAllowed(k, v) ==
+  P.mode = "explore" \/ (Len(log) < Len(P.obs.log) /\ P.obs.log[Len(log) + 1] = <<k, Proj(v)>>)
 StepEff(n) ==
   IF NCh(n) = 1 /\ Ph(n) = 0
   THEN nd' = SetPh(Act(nd, Ch(n)[1], Env(n)), n, 1) /\ UnchangedButNd
@@ -340,8 +346,8 @@ StepEff(n) ==
            i == calls[k] + 1
            ft == FaultAt(k, i)
            v == IF NCh(n) = 1 THEN nd[Ch(n)[1]].val ELSE ScriptVal(k, i)
-       IN /\ EffectAllowed(k)
-          /\ log' = Append(log, k)
+       IN /\ EffectAllowed(k, IF ft # 0 THEN None ELSE v)
+          /\ log' = Append(log, <<k, Proj(IF ft # 0 THEN None ELSE v)>>)
           /\ calls' = [calls EXCEPT ![k] = i]
           /\ IF ft # 0
                THEN /\ exc' = Abrupt("exc", ft, ExcV(ft), n)
@@ -640,8 +646,8 @@ StepWith(n) ==
                   i == calls[k] + 1
                   ft == FaultAt(k, i)
                   v == ScriptVal(k, i)
-              IN /\ EffectAllowed(k)
-                 /\ log' = Append(log, k)
+              IN /\ EffectAllowed(k, IF ft # 0 THEN None ELSE v)
+                 /\ log' = Append(log, <<k, Proj(IF ft # 0 THEN None ELSE v)>>)
                  /\ calls' = [calls EXCEPT ![k] = i]
                  /\ IF ft # 0
                       THEN /\ exc' = Abrupt("exc", ft, ExcV(ft), n)
@@ -662,8 +668,8 @@ StepWith(n) ==
                   j == calls[k] + 1
                   ft == FaultAt(k, j)
                   res == IF NCh(n) > 2 THEN nd[Ch(n)[NCh(n)]].val ELSE None
-              IN /\ EffectAllowed(k)
-                 /\ log' = Append(log, k)
+              IN /\ EffectAllowed(k, None)
+                 /\ log' = Append(log, <<k, None>>)
                  /\ calls' = [calls EXCEPT ![k] = j]
                  /\ IF ft # 0
                       THEN /\ exc' = Abrupt("exc", ft, ExcV(ft), n)
@@ -781,8 +787,8 @@ Propagate ==
                 k == ExitSite(CmId(m))
                 j == calls[k] + 1
                 ft == FaultAt(k, j)
-            IN /\ EffectAllowed(k)
-               /\ log' = Append(log, k)
+            IN /\ EffectAllowed(k, None)
+               /\ log' = Append(log, <<k, None>>)
                /\ calls' = [calls EXCEPT ![k] = j]
                /\ IF ft # 0
                     THEN /\ exc' = Abrupt("exc", ft, ExcV(ft), p)
@@ -805,12 +811,6 @@ Finished == fin # <<"running">>
 
 \* ---------------------------------------------------------------- observables
 GlobalsNow == [x \in Names |-> heap[ModEnv].vars[x]]
-\* project a value for comparison with the implementation: closures compare by
-\* definition node only; environments are internal
-RECURSIVE Proj(_)
-Proj(v) == CASE v[1] = "fn" -> <<"fn", 0, <<>>>>
-             [] v[1] \in {"list", "tuple"} -> <<v[1], 0, [i \in 1..Len(v[3]) |-> Proj(v[3][i])]>>
-             [] OTHER -> v
 Outcome == [out |-> IF fin[1] = "val" THEN <<"val", Proj(fin[2])>> ELSE fin,
             log |-> log,
             globals |-> [x \in Names |-> Proj(GlobalsNow[x])]]
